@@ -87,20 +87,29 @@ pub trait ParseAttribute: Sized {
 }
 
 fn parse_attr<T: ParseAttribute>(attr: &syn::Attribute, target: &mut T) -> Result<()> {
-    let mut errors = Error::accumulator();
     match &attr.meta {
         syn::Meta::List(data) => {
-            for item in NestedMeta::parse_meta_list(data.tokens.clone())? {
-                if let NestedMeta::Meta(ref mi) = item {
-                    errors.handle(target.parse_nested(mi));
-                } else {
-                    panic!("Wasn't able to parse: `{:?}`", item);
+            let mut errors = Error::accumulator();
+
+            match NestedMeta::parse_meta_list(data.tokens.clone()) {
+                Ok(items) => {
+                    for item in items {
+                        if let NestedMeta::Meta(ref mi) = item {
+                            errors.handle(target.parse_nested(mi));
+                        } else {
+                            errors.push(Error::unsupported_format("literal").with_span(&item));
+                        }
+                    }
                 }
+                Err(err) => errors.push(err.into()),
             }
 
             errors.finish()
         }
-        item => panic!("Wasn't able to parse: `{:?}`", item),
+        syn::Meta::Path(_) => Err(Error::unsupported_format("word").with_span(&attr.meta)),
+        syn::Meta::NameValue(_) => {
+            Err(Error::unsupported_format("name-value").with_span(&attr.meta))
+        }
     }
 }
 
